@@ -566,3 +566,106 @@ Definition fields_raw_free (e : expansion) : bool :=
 
 (** list helper used by the check to build [fv] from a list *)
 Definition nth_val (l : list val) (i : nat) : val := nth i l (VUnit []).
+
+(* ------------------------------------------------------------------ the reference: hand-written std impls *)
+
+(** what one field contributes to the builder chain, read directly off its attribute *)
+Definition printed (p : nat * fattr) : list fexpr :=
+  match snd p with ASkip => [] | ANone => [FeField (fst p)] | AFmt k => [FeArgs (fst p) k] end.
+Definition is_skip (a : fattr) : bool := match a with ASkip => true | _ => false end.
+Definition printed_named (u : bool) (p : nat * (ident * fattr)) : list (str * fexpr) :=
+  match snd (snd p) with
+  | ASkip => []
+  | ANone => [(site_string u (fst (snd p)), FeField (fst p))]
+  | AFmt k => [(site_string u (fst (snd p)), FeArgs (fst p) k)]
+  end.
+
+(** The impl one writes by hand with std's builders for an item carrying skip / format attributes (the
+    property text's reference): name without r#, [field(&x)] for a plain field, [field(&format_args!(..))]
+    for a formatted one, nothing for a skipped one, [finish_non_exhaustive()] iff something is skipped. *)
+Definition reference_body (e : expansion) : body :=
+  let n := iname (e_ident e) in
+  match e_fields e with
+  | FUnit => BWriteStr n
+  | FUnnamed l =>
+      BCoreTuple n (flat_map printed (combine (seq 0 (length l)) l)) (negb (existsb is_skip l))
+  | FNamed l =>
+      BCoreStruct n (flat_map (printed_named true) (combine (seq 0 (length l)) l))
+                  (negb (existsb (fun p => is_skip (snd p)) l))
+  end.
+
+(** what the identical definition does on the std side: std's derive when there is no attribute, the
+    hand-written reference otherwise *)
+Definition std_side_body (e : expansion) : body :=
+  if no_attrs e then std_derive_body e else reference_body e.
+
+(* ------------------------------------------------------------------ derived values, end to end *)
+
+(** A value of a program in which some types derive Debug: [DAdt e fields fargs] is a struct / the chosen
+    enum variant with Expansion [e] (expand_enum, debug.rs:118-193, builds one Expansion per variant and the
+    [match self] picks the arm of the value's variant), [fargs] the format_args! values of its field-level
+    formats (by field index); [DStd]/[DName]/[DList] are std's own impls (Some(..), tuples / None / Vec,
+    slices, arrays); [DArgs] a format_args! value. *)
+Inductive dval :=
+| DLeaf (f : fmtfun)
+| DAdt (e : expansion) (fields : list dval) (fargs : list dval)
+| DStd (name : str) (fields : list dval)
+| DName (name : str)
+| DList (items : list dval)
+| DArgs (ps : list (str * cfg * dval)) (tail : str).
+
+(** the value when every [DAdt] derives derive_more::Debug (current tree) ... *)
+Fixpoint dm_val (d : dval) : val :=
+  match d with
+  | DLeaf f => VLeaf f
+  | DAdt e fs avs =>
+      body_val (nth_val (map dm_val fs)) (fun i _ => nth_val (map dm_val avs) i) (generate_body_now e)
+  | DStd n fs => VTuple Std n (map dm_val fs) true
+  | DName n => VUnit n
+  | DList items => VList (map dm_val items)
+  | DArgs ps tail => VArgs (map (fun p => let '(l, c, x) := p in (l, c, dm_val x)) ps) tail
+  end.
+
+(** ... and when every [DAdt] is the identical definition on the std side *)
+Fixpoint std_val (d : dval) : val :=
+  match d with
+  | DLeaf f => VLeaf f
+  | DAdt e fs avs =>
+      body_val (nth_val (map std_val fs)) (fun i _ => nth_val (map std_val avs) i) (std_side_body e)
+  | DStd n fs => VTuple Std n (map std_val fs) true
+  | DName n => VUnit n
+  | DList items => VList (map std_val items)
+  | DArgs ps tail => VArgs (map (fun p => let '(l, c, x) := p in (l, c, std_val x)) ps) tail
+  end.
+
+(** the known-finding class, on programs: formatting [d] under [c] reaches a derive_more tuple struct /
+    tuple variant with at least one printed field while the formatter is pretty AND has another option *)
+Definition known_class (d : dval) (c : cfg) : bool := negb (safeb c (dm_val d)).
+
+(* ------------------------------------------------------------------ generate_bounds (debug.rs:375-419) *)
+
+Inductive ftrait := TrDebug | TrDisplay | TrBinary | TrOctal | TrLowerHex | TrUpperHex | TrLowerExp | TrUpperExp | TrPointer.
+
+(** a where-predicate [<type of field j>: core::fmt::Trait] *)
+Definition bound := (nat * ftrait)%type.
+
+(** Expansion::generate_bounds when [self.attr.fmt] is None and there is no [bound(...)] attribute.
+    [generic j] = [ty_j.contains_generics(type_params)]; [refs i k] = [fmt_attr.bounded_types(fields)] of
+    field i's format attribute: the (field, trait) pairs its placeholders resolve to. *)
+Fixpoint bounds_from (generic : nat -> bool) (refs : nat -> nat -> list bound) (i : nat) (l : list fattr)
+  : list bound :=
+  match l with
+  | [] => []
+  | a :: l' =>
+      (match a with
+       | AFmt k => filter (fun b => generic (fst b)) (refs i k)
+       | ASkip => []
+       | ANone => if generic i then [(i, TrDebug)] else []
+       end) ++ bounds_from generic refs (S i) l'
+  end.
+
+Definition field_attrs (f : fields) : list fattr :=
+  match f with FUnit => [] | FUnnamed l => l | FNamed l => map snd l end.
+
+Definition generate_bounds (generic : nat -> bool) (refs : nat -> nat -> list bound) (e : expansion) : list bound :=
+  bounds_from generic refs 0 (field_attrs (e_fields e)).
